@@ -1,7 +1,7 @@
 """C12 — homogeneous-body Love number matches the closed form (formula level)."""
 from __future__ import annotations
 from ..core import expr as X
-from ..core.interp import Interp
+from ..core.interp import Interp, Opaque
 from ..frontend.pyfront import Repo
 
 LEVEL = 'proof'
@@ -144,7 +144,11 @@ def entry_point_love(chk, repo):
         return NotImplemented
 
     def branch_hook(itp, st, v, fr):
-        return None if isinstance(v, Opaque) and v.name.startswith('tolerance test') else False
+        if isinstance(v, Opaque) and v.name.startswith('tolerance test'):
+            return None
+        if isinstance(v, Opaque) and v.name == 'isinstance':
+            return False    # isinstance(x, np.ndarray) on a symbolic scalar: the scalar path (array inputs have their own pass)
+        return None         # everything else: sign domain, then forked, else the analysis fails closed
     M = X.atom('M_host', 'pos'); m = X.atom('m_target', 'pos'); R = X.atom('R', 'pos'); g = X.atom('g', 'pos'); rho = X.atom('rho', 'pos'); mu = X.atom('mu', 'pos')
     J = X.atom('J_sync', 'complex')
     d = X.Decider(seed=chk.seed + 5, k=2, positive=[M + m])
